@@ -62,7 +62,7 @@ def ownership(ctx, ef):
                 continue
             root_fn = f.qualname.split('.<locals>')[0]          # a helper nested in an owner function is part of it
             seen[key].add(root_fn)
-            res.check(root_fn in OWNERS[key], 'R-OWN.children', f.fq, f"`{short(w.node, 70)}`: writer of {key} is an owner function",
+            res.check(dom.owner_or_helper(ef.cg, f, OWNERS[key]), 'R-OWN.children', f.fq, f"`{short(w.node, 70)}`: writer of {key} is an owner function",
                       fail_detail=f"owners: {sorted(OWNERS[key])}", key=f"R-OWN.children|{key}|{f.qualname}", line=getattr(w.node, 'lineno', None))
     for k, s in seen.items():
         res.floor(f"R-OWN.children writers of {k}", len(s), 3)
@@ -77,55 +77,107 @@ def _must(g, node_list, edge_ok):
     return bool(node_list) and g.path_avoiding(g.entry, g.exit, avoid=node_list, edge_ok=edge_ok) is None
 
 
+def _mustfx(ctx, mode):
+    from ..rules.mustfx import MustFx
+    cg = get_cg(ctx)
+    return ctx.lazy(f"mustfx-{mode}", lambda: MustFx(cg, CHECKED if mode == 'checked' else UNCHECKED))
+
+
 def pairing_add(ctx):
     sm, res = ctx.sm, ctx.res
-    res.rule('R-PAIR.add', "every normal path of add_child performs, on the same child object: leaf attach (checked mode), insertion-list append, parent := self")
+    res.rule('R-PAIR.add', "every normal path of add_child performs, on the same child object: leaf attach (checked mode), insertion-list append, parent := self "
+             "- directly or through a helper that performs it on every one of its paths")
     f = sm.func('XMLElement', 'add_child', T.M_XMLELEMENT)
+    child = ('param', 1)
+    for mode in ('checked', 'unchecked'):
+        mx = _mustfx(ctx, mode)
+        assume = CHECKED if mode == 'checked' else UNCHECKED
+        if mode == 'checked':
+            res.check(mx.performed_on_every_path(f, lambda l: l[0] == 'call' and l[1] == 'XMLChildContainer.add_element' and l[3][:1] == (child,), assume), 'R-PAIR.add', f.fq,
+                      "checked: the child is handed to the matcher on every path", key='R-PAIR.add|attach')
+            res.check(mx.performed_on_every_path(f, lambda l: l[0] == 'call' and l[1] == 'XMLChildContainer.add_element' and l[3] == (child, ('param', 2)), assume), 'R-PAIR.add', f.fq,
+                      "the matcher receives (child, forward) unchanged", key='R-PAIR.add|args')
+        res.check(mx.performed_on_every_path(f, lambda l: l == ('write', 'self', '_unordered_children', 'append', child), assume), 'R-PAIR.add', f.fq,
+                  f"{mode}: the child is appended to the insertion list on every normal path", key=f"R-PAIR.add|append|{mode}")
+        res.check(mx.performed_on_every_path(f, lambda l: l == ('write', child, '_parent', 'store', 'self'), assume), 'R-PAIR.add', f.fq,
+                  f"{mode}: the child's parent is set to self on every normal path", key=f"R-PAIR.add|parent|{mode}")
+    # exactly once: no second append on any path (duplication)
     g = cfg_of(f.node)
-    child = f.params[1]
-    attach = dom.nodes_calling(g, lambda c: unparse(c.func) == 'self._child_container_tree.add_element' and c.args and unparse(c.args[0]) == child)
-    append = dom.nodes_calling(g, lambda c: unparse(c.func) == 'self._unordered_children.append' and [unparse(a) for a in c.args] == [child])
-    parent = [n for n in g.stmt_nodes() if n.kind == 'stmt' and isinstance(n.ast, ast.Assign) and unparse(n.ast.targets[0]) == f"{child}._parent" and unparse(n.ast.value) == 'self']
-    on, off = g.edge_filter_assuming(CHECKED), g.edge_filter_assuming(UNCHECKED)
-    res.check(_must(g, attach, on), 'R-PAIR.add', f.fq, "checked: the child is handed to the matcher on every path", key='R-PAIR.add|attach')
-    for mode, ok in (('checked', on), ('unchecked', off)):
-        res.check(_must(g, append, ok), 'R-PAIR.add', f.fq, f"{mode}: the child is appended to the insertion list on every normal path", key=f"R-PAIR.add|append|{mode}")
-        res.check(_must(g, parent, ok), 'R-PAIR.add', f.fq, f"{mode}: the child's parent is set to self on every normal path", key=f"R-PAIR.add|parent|{mode}")
-    # the forward argument is passed through unchanged
-    for n in attach:
-        c = [x for e in n.exprs() for x in walk_local(e) if isinstance(x, ast.Call) and unparse(x.func) == 'self._child_container_tree.add_element'][0]
-        res.check([unparse(a) for a in c.args] == [child, f.params[2]] and not c.keywords, 'R-PAIR.add', f.fq, "the matcher receives (child, forward) unchanged",
-                  fail_detail=short(c), key='R-PAIR.add|args')
-    # exactly once
-    res.check(len(append) == 1 and len(parent) == 1, 'R-PAIR.add', f.fq, "append and parent assignment occur once each (no duplication)", key='R-PAIR.add|once')
+    mx = _mustfx(ctx, 'checked')
+    app_nodes = mx.nodes_with(f, lambda l: l[0] == 'write' and l[1] == 'self' and l[2] == '_unordered_children' and l[3] in ('append', 'insert', 'extend'))
+    twice = any(g.path_avoiding(a1, a2) is not None for a1 in app_nodes for a2 in app_nodes if a1 is not a2) or any(
+        m is a1 for a1 in app_nodes for m in g.reachable(a1) - {a1} if False)
+    loops = any(a1 in (g.reachable(m) if m is not a1 else set()) for a1 in app_nodes for m, _ in g.succ[a1])
+    res.check(not twice and not loops, 'R-PAIR.add', f.fq, "the child is appended at most once on any path (no duplication)", key='R-PAIR.add|once')
     rets = [n for n in g.stmt_nodes() if n.kind == 'return']
-    res.check(all(unparse(r.ast.value) == child for r in rets), 'R-PAIR.add', f.fq, "the added child is returned", key='R-PAIR.add|return')
+    res.check(all(unparse(r.ast.value) == f.params[1] for r in rets), 'R-PAIR.add', f.fq, "the added child is returned", key='R-PAIR.add|return')
+
+
+def _detach_before_clear(ctx, mx, f, child, assume, depth=0) -> bool:
+    """On every path the leaf detach (through the back-pointer) precedes the clearing of that back-pointer; when one helper call
+    provides both, the order is checked inside the helper."""
+    cg = get_cg(ctx)
+    g = cfg_of(f.node)
+    ok_edges = g.edge_filter_assuming(assume)
+    leaf_pred = lambda l: l[0] == 'write' and l[1] == child and l[2] in ('parent_xsd_element.xml_elements', 'parent_xsd_element._xml_elements') and l[3] == 'remove' and l[4] == child
+    back_pred = lambda l: l == ('write', child, 'parent_xsd_element', 'store', 'none')
+    leaf = mx.nodes_with(f, leaf_pred)
+    back = mx.nodes_with(f, back_pred)
+    for b in back:
+        if b in leaf:
+            # both effects come from this node: a helper call - descend
+            if depth > 2:
+                return False
+            descended = False
+            for e in b.exprs():
+                for c in walk_local(e):
+                    for ed in cg.by_node.get(c, []):
+                        if ed.caller.node is not f.node or not isinstance(c, ast.Call):
+                            continue
+                        callee = ed.callee
+                        off = 1 if (callee.cls is not None and not callee.is_staticmethod and isinstance(c.func, ast.Attribute)) else 0
+                        sub_child = None
+                        for i, a in enumerate(c.args):
+                            if isinstance(a, ast.Name) and a.id in f.params and ('param', f.params.index(a.id)) == child:
+                                sub_child = ('param', i + off)
+                        if sub_child is not None and any(leaf_pred(mx._instantiate(l, {sub_child: child})) for l in mx.must.get(callee, ())):
+                            descended = True
+                            if not _detach_before_clear(ctx, mx, callee, sub_child, assume, depth + 1):
+                                return False
+            if not descended:
+                return False
+            continue
+        if g.path_avoiding(g.entry, b, avoid=leaf, edge_ok=ok_edges) is not None:
+            return False
+    return True
 
 
 def pairing_remove(ctx):
     sm, res = ctx.sm, ctx.res
     res.rule('R-PAIR.remove', "every normal path of remove performs, on the same child object: insertion-list removal, leaf detach and leaf back-pointer := None "
-             "(checked mode), parent := None")
+             "(checked mode), parent := None - directly or through a helper that performs it on every one of its paths")
     f = sm.func('XMLElement', 'remove', T.M_XMLELEMENT)
+    child = ('param', 1)
+    for mode in ('checked', 'unchecked'):
+        mx = _mustfx(ctx, mode)
+        assume = CHECKED if mode == 'checked' else UNCHECKED
+        res.check(mx.performed_on_every_path(f, lambda l: l == ('write', 'self', '_unordered_children', 'remove', child), assume), 'R-PAIR.remove', f.fq,
+                  f"{mode}: the child leaves the insertion list on every normal path", key=f"R-PAIR.remove|list|{mode}")
+        res.check(mx.performed_on_every_path(f, lambda l: l == ('write', child, '_parent', 'store', 'none'), assume), 'R-PAIR.remove', f.fq,
+                  f"{mode}: the child's parent is cleared on every normal path", key=f"R-PAIR.remove|parent|{mode}")
+    mx = _mustfx(ctx, 'checked')
+    leaf_pred = lambda l: l[0] == 'write' and l[1] == child and l[2] in ('parent_xsd_element.xml_elements', 'parent_xsd_element._xml_elements') and l[3] == 'remove' and l[4] == child
+    back_pred = lambda l: l == ('write', child, 'parent_xsd_element', 'store', 'none')
+    res.check(mx.performed_on_every_path(f, leaf_pred, CHECKED), 'R-PAIR.remove', f.fq, "checked: the child is detached from its own leaf (found through its back-pointer)",
+              key='R-PAIR.remove|leaf')
+    res.check(mx.performed_on_every_path(f, back_pred, CHECKED), 'R-PAIR.remove', f.fq, "checked: the child's leaf back-pointer is cleared", key='R-PAIR.remove|back-pointer')
     g = cfg_of(f.node)
-    child = f.params[1]
-    lst = dom.nodes_calling(g, lambda c: unparse(c.func) == 'self._unordered_children.remove' and [unparse(a) for a in c.args] == [child])
-    leaf = dom.nodes_calling(g, lambda c: isinstance(c.func, ast.Attribute) and c.func.attr == 'remove' and
-                             unparse(c.func.value) in (f"{child}.parent_xsd_element.xml_elements", f"{child}.parent_xsd_element._xml_elements") and
-                             [unparse(a) for a in c.args] == [child])
-    back = [n for n in g.stmt_nodes() if n.kind == 'stmt' and isinstance(n.ast, ast.Assign) and unparse(n.ast.targets[0]) == f"{child}.parent_xsd_element" and unparse(n.ast.value) == 'None']
-    parent = [n for n in g.stmt_nodes() if n.kind == 'stmt' and isinstance(n.ast, ast.Assign) and unparse(n.ast.targets[0]) == f"{child}._parent" and unparse(n.ast.value) == 'None']
-    on, off = g.edge_filter_assuming(CHECKED), g.edge_filter_assuming(UNCHECKED)
-    for mode, ok in (('checked', on), ('unchecked', off)):
-        res.check(_must(g, lst, ok), 'R-PAIR.remove', f.fq, f"{mode}: the child leaves the insertion list on every normal path", key=f"R-PAIR.remove|list|{mode}")
-        res.check(_must(g, parent, ok), 'R-PAIR.remove', f.fq, f"{mode}: the child's parent is cleared on every normal path", key=f"R-PAIR.remove|parent|{mode}")
-    res.check(_must(g, leaf, on), 'R-PAIR.remove', f.fq, "checked: the child is detached from its own leaf (found through its back-pointer)", key='R-PAIR.remove|leaf')
-    res.check(_must(g, back, on), 'R-PAIR.remove', f.fq, "checked: the child's leaf back-pointer is cleared", key='R-PAIR.remove|back-pointer')
-    # the detach must precede clearing the back-pointer through which the leaf is found
+    on = g.edge_filter_assuming(CHECKED)
+    leaf = mx.nodes_with(f, leaf_pred)
+    back = mx.nodes_with(f, back_pred)
     if leaf and back:
-        res.check(all(g.path_avoiding(g.entry, b, avoid=leaf, edge_ok=on) is None for b in back), 'R-PAIR.remove', f.fq,
+        res.check(_detach_before_clear(ctx, mx, f, child, CHECKED), 'R-PAIR.remove', f.fq,
                   "the leaf is detached before the back-pointer that leads to it is cleared", key='R-PAIR.remove|order')
-    # pruning of duplicated branches never removes a branch that still holds a child, and never the last occurrence
     prune_rules(ctx, f)
 
 
